@@ -55,12 +55,12 @@ CODEC = {'test': 'TestVerifCodec', 'comp': 'codec', 'quick': {'VERIF_N': 1500}, 
          'seeds': {'quick': 1, 'thorough': 4}}
 
 PROPS = {
-    'C05': {'jobs': [RQ]},
-    'C16': {'jobs': [GENF, RQ, ASND]},
-    'C01': {'jobs': [REASM, E2E_T], 'assumptions': [
+    'C05': {'jobs': [RQ, ARCV]},
+    'C16': {'jobs': [GENF, RQ, ASND, ARCV]},
+    'C01': {'jobs': [REASM, ARCV, E2E_T], 'assumptions': [
         'component theorem: the association hands each TSN to the stream at most once (C05) and chunks are the sender\'s fragments',
         'fewer than 2^15 ordered messages of a stream outstanding (SSN half-space; known finding D15); fewer than 2^31 TSNs/MIDs outstanding']},
-    'C11': {'jobs': [REASM], 'assumptions': [
+    'C11': {'jobs': [REASM, ARCV], 'assumptions': [
         'sum of len(userData) over all chunks ever pushed < 2^63 (uint64 counter / int conversion in subtractNumBytes)']},
     'C02': {'jobs': [E2E_T], 'rule': E2E_RULE},
     'C06': {'jobs': [E2E_PR, E2E_T, E2E_API, REASM, ASND], 'rule': E2E_RULE},
@@ -85,7 +85,7 @@ PROPS = {
     ]},
     'C18': {'jobs': [E2E_API, E2E_SD], 'rule': E2E_RULE},
     'C09': {'jobs': [E2E_TD, E2E_SD, E2E_HS], 'rule': E2E_RULE},
-    'C19': {'jobs': [RTO, TIMER], 'assumptions': [
+    'C19': {'jobs': [RTO, TIMER, ARCV], 'assumptions': [
         'float64 arithmetic of rtoManager / calculateNextTimeout is proved over Rat; the Float instance is compared with the Go code bit for bit on sampled sequences',
         'timer automaton theorems assume fewer than 255 fired callbacks wait for the timer mutex at once (pending is a uint8; witness C19_pending_wrap_witness, known finding K19-pending-uint8)',
         'timeout() is modelled as atomic including the observer call; in Go the observer runs just after the timer mutex is released (with a zero interval consecutive reports can overtake each other)',
@@ -93,7 +93,7 @@ PROPS = {
         'retry-budget, Karn and start-uses-manager-RTO are syntactic facts about call sites (argument / guard text), not data-flow',
         'association level (SACK immediacy, 200 ms bound per DATA packet, heartbeat round trip) is not part of this check yet',
     ]},
-    'C17': {'jobs': [PEND, HSD, E2E_HS, E2E_T], 'assumptions': [
+    'C17': {'jobs': [PEND, ARCV, HSD, E2E_HS, E2E_T], 'assumptions': [
         'scheduler half only (pending_queue.go, scheduler factories); the negotiation half (chunk kinds, wrong-kind ABORT) is tied elsewhere',
         'WFQ theorems are over exact rationals; the Go code uses float64 (identical for power-of-two weights; X compares the Float instance bit for bit)',
         'a chunk pointer is never queued twice (fresh chunk per fragment), so chunkFinish[ptr] is modelled as a tag stored with the queue entry',
@@ -107,7 +107,7 @@ PROPS = {
     'C13': {'jobs': [dict(CODEC, pviol_prefix=['C13-']), HSD, E2E_HS, E2E_T], 'assumptions': [
         'the CRC is uninterpreted in the theorems; the driver recomputes every checksum with its own bitwise CRC32c, '
         'which the harness compares with hash/crc32 on random strings']},
-    'C03': {'jobs': [dict(CODEC, pviol_prefix=['C03-']), ASND, E2E_PR], 'assumptions': [
+    'C03': {'jobs': [dict(CODEC, pviol_prefix=['C03-']), ASND, ARCV, E2E_PR], 'assumptions': [
         'decoder part only (Props/C03dec.lean): panics are the explicit panic outcomes of the L0 model; '
         'the harness runs every decode under recover() and a time box']},
 }
